@@ -138,9 +138,24 @@ def apply_rule(rule, model: onnx.ModelProto):
     return count, after, None
 
 
+class _Sess:
+    """runeq.run_ort only feeds names in session.get_inputs(); overridable initializers (initializer that is
+    also a graph input) are listed separately by ORT, so without this proxy a feed that overrides a default
+    would silently be dropped on the ORT side."""
+
+    def __init__(self, model):
+        self.s = runeq.make_session(model)
+
+    def get_inputs(self):
+        return list(self.s.get_inputs()) + list(self.s.get_overridable_initializers())
+
+    def run(self, *a, **k):
+        return self.s.run(*a, **k)
+
+
 def _run_after(after, feeds):
     try:
-        return runeq.run_ort(after, feeds), None
+        return runeq.run_ort(after, feeds, _Sess(after)), None
     except runeq.RunError as e:
         msg = e.msg
         if "NOT_IMPLEMENTED" in msg or "Could not find an implementation" in msg:
@@ -162,7 +177,41 @@ def check_valid(model):
         return f"{type(e).__name__}: {str(e)[:400]}"
 
 
-def judge(rule, model, feeds):
+_ACC_TOL = {"float64": 1e-9, "float32": 2e-5, "float16": 4e-3}
+
+
+def _close_accum(ref, got):
+    """Round-off criterion for rewrites that re-associate a reduction (weights folded into Conv/Gemm, fused
+    normalisations): same count/dtype/shape/NaN/inf pattern and |a-b| <= tol(dtype) * max(1, max|a|), i.e. the
+    error is measured against the magnitude of the accumulated tensor instead of each (possibly cancelled) element."""
+    if len(ref) != len(got):
+        return False
+    for a, b in zip(ref, got):
+        a = np.asarray(a)
+        b = np.asarray(b)
+        if a.dtype != b.dtype or a.shape != b.shape:
+            return False
+        if a.dtype.kind != "f":
+            if not (a == b).all():
+                return False
+            continue
+        af = a.astype(np.float64)
+        bf = b.astype(np.float64)
+        fin = np.isfinite(af)
+        if (fin != np.isfinite(bf)).any():
+            return False
+        if (~fin).any():
+            x, y = af[~fin], bf[~fin]
+            if not ((np.isnan(x) == np.isnan(y)).all() and (x[~np.isnan(x)] == y[~np.isnan(y)]).all()):
+                return False
+        if fin.any():
+            scale = max(1.0, float(np.abs(af[fin]).max()))
+            if (np.abs(af[fin] - bf[fin]) > _ACC_TOL.get(a.dtype.name, 2e-5) * scale).any():
+                return False
+    return True
+
+
+def judge(rule, model, feeds, spec=None, accum=False):
     """Run the whole C05 oracle on one host model.
 
     -> dict(outcome=..., fired=bool, problems=[(kind, detail)], admitted=int, skipped={reason:n})
@@ -197,11 +246,21 @@ def judge(rule, model, feeds):
         res["problems"].append(("ill-formed", {"wf": w[:3]}))
     n_eq = 0
     try:
-        sess = runeq.make_session(model)
+        sess = _Sess(model)
     except runeq.RunError:
         sess = None
     for k, fd in enumerate(feeds):
         ref, why = runeq.admit(model, fd, sess) if sess is not None else (None, "ort-load")
+        if ref is None and spec is not None and sess is not None and why in ("ref-run", "ref-load", "ref-crash", "disagree"):
+            # second opinion from the numpy specification instead of onnx.reference
+            try:
+                o = runeq.run_ort(model, fd, sess)
+                exp = spec(fd)
+            except runeq.RunError:
+                o = exp = None
+            if o is not None and exp is not None and runeq.compare(o, exp, loose=10.0) is None:
+                ref = o
+                res["admitted_by_spec"] = res.get("admitted_by_spec", 0) + 1
         if ref is None:
             res["skipped"][why] = res["skipped"].get(why, 0) + 1
             continue
@@ -211,6 +270,9 @@ def judge(rule, model, feeds):
             res["problems"].append(("after-fails", {"feed": k, "error": aerr}))
             continue
         d = runeq.compare(ref, got)
+        if d and accum and _close_accum(ref, got):
+            res["within_accum_roundoff"] = res.get("within_accum_roundoff", 0) + 1
+            d = None
         if d:
             res["problems"].append(("not-equivalent", {"feed": k, "diff": d,
                                                        "inputs": {n: runeq.describe(v) for n, v in fd.items()},
